@@ -405,6 +405,20 @@ func classifyValue(info *types.Info, fd *ast.FuncDecl, e ast.Expr, depth int) st
 			}
 		}
 	}
+	if cl, ok := unAddr(e).(*ast.CompositeLit); ok {
+		if tv, ok := info.Types[cl]; ok {
+			if n := namedOf(tv.Type); n != nil {
+				if _, isStruct := n.Underlying().(*types.Struct); isStruct {
+					var ks []string
+					for k := range compositeFields(cl) {
+						ks = append(ks, k)
+					}
+					sort.Strings(ks)
+					return "lit:" + n.Obj().Name() + "{" + strings.Join(ks, ",") + "}"
+				}
+			}
+		}
+	}
 	if call, ok := e.(*ast.CallExpr); ok {
 		obj := calleeObj(info, call)
 		if f, ok := obj.(*types.Func); ok {
